@@ -38,7 +38,9 @@ type c06Case struct {
 type maddr struct{ Name, Addr string }
 
 var c06Names = []string{"", "", "Plain Name", "Müller, Hans", `O'Neil "The Boss"`, "Semi; Colon: <angle>", "日本 太郎", "back\\slash", "  spaced   out  ", "(paren) name", "dot. name.", "a@b in name", "Ünï Cödé Näme That Is Rather Long And Needs Folding Somewhere Along The Line",
-	"Doe, John", "Smith; Jane: Dr.", "a,b,c", "Last, First \"Nick\" Middle", "comma, and <angle>, twice"}
+	"Doe, John", "Smith; Jane: Dr.", "a,b,c", "Last, First \"Nick\" Middle", "comma, and <angle>, twice",
+	// runes that Go's strconv / unicode.IsPrint treat as not printable, but that are ordinary name characters
+	"山田\u3000太郎", "No\u00a0Break Space", "zero\u200dwidth joiner", "soft\u00adhyphen", "family 👨\u200d👩\u200d👧", "Support\tDesk"}
 var c06Invalid = []string{"not an address", "a@", "@b.example", "a b@c.example", "<>", "", "x@y@z", "Name <broken", "\"unterminated <a@b.example>"}
 
 func fmtAddr(name, addr string) string {
